@@ -1155,12 +1155,25 @@ class Fn:
             return "?"
         return self.describe_place(p, depth)
 
+    def stable_describe(self, o):
+        """like describe(), but without the source names of locals: parameters are `argN`, a local defined once is shown by its
+        defining expression, a local assigned more than once is `var`.  Used in instance keys so that renaming a local does not
+        rename the key (the readable form goes to the report text)."""
+        self._noname = True
+        try:
+            return self.describe(o)
+        finally:
+            self._noname = False
+
     def describe_place(self, p, depth=0):
         l = p[0]
-        if l in self.names and l > 0:
+        noname = getattr(self, "_noname", False)
+        if l in self.names and l > 0 and not noname:
             return place_str(p, self.names)
         if l <= self.argc and l > 0:
             return place_str(p, {l: "arg%d" % l})
+        if noname and len(self.defs.get(l, [])) > 1:
+            return place_str(p, {l: "var"})
         if depth > 6:
             return "…"
         ds = self.defs.get(l, [])
@@ -1193,7 +1206,7 @@ class Fn:
                         return self.describe(t["args"][0], depth + 1)
             return nm + "()"
         if k == "ref":
-            return place_str(rv["p"], self.names) if rv["p"][0] in self.names else self.describe_place(rv["p"], depth + 1)
+            return place_str(rv["p"], self.names) if (rv["p"][0] in self.names and not getattr(self, "_noname", False)) else self.describe_place(rv["p"], depth + 1)
         if k == "discr":
             return "discr(%s)" % self.describe_place(rv["p"], depth + 1)
         if k == "agg":
